@@ -1,5 +1,5 @@
 (* C13 — NDCollection keeps its aligned-axis bookkeeping true under every edit *)
-From NDV Require Import M_Collection P_Collection.
+From NDV Require Import M_Collection P_Collection P_CollectionInv.
 
 (* numeric slicing renumbers every member's aligned axes exactly as "the same physical axes,
    renumbered for the ones dropped": survivors in order, each lowered by the number of dropped member
@@ -19,10 +19,43 @@ Theorem C13_drops_wellformed : forall its i,
 Proof. exact int_positions_props. Qed.
 Print Assumptions C13_drops_wellformed.
 
+(* ---- the invariant and its preservation (P_CollectionInv.v) ------------------------------------------------------- *)
+(* Inv: keys are distinct; with aligned axes every member's aligned axes are distinct axes that exist on that member
+   and the i-th aligned axes of all members have the same length; without, no member lists any.  It is the
+   proposition the boolean inv (evaluated by the correspondence check on every reached state) decides. *)
+Theorem C13_inv_reflects : forall c, inv c = true <-> Inv c.
+Proof. exact inv_spec. Qed.
+Print Assumptions C13_inv_reflects.
+
+(* one member under a numeric slice: the renumbered aligned axes are distinct axes of the SLICED member, and the
+   lengths along them are a function of the old aligned lengths and the items only (hence equal across members) *)
+Theorem C13_member_slice : forall m its sh', MemberOk m -> no_special its -> (length its <= length (mal m))%nat ->
+  sliced_shape (mshape m) (member_item m its) = Ok sh' ->
+  let drops := int_positions 0 its in
+  let m' := mkM (mkey m) sh' (renumber_spec (mal m) drops) in
+  MemberOk m' /\
+  aligned_lens m' = map (fun j => the_len (znth j (aligned_lens m) 0) (nth (Z.to_nat j) its full_slice))
+                        (remove_positions 0 drops (iotaZ (length (mal m)))).
+Proof. exact member_slice. Qed.
+Print Assumptions C13_member_slice.
+
+(* every supported edit - numeric slicing, selection by distinct keys, pop / del, update with a consistent set of
+   members, copy - keeps the invariant, and a refused edit leaves the collection as it was *)
+Theorem C13_edit : forall c e, Inv c -> edit_ok e -> Inv (step_edit c e).
+Proof. exact edit_preserves. Qed.
+Print Assumptions C13_edit.
+
+(* ... hence after ANY sequence of supported edits, of any length *)
+Theorem C13_history : forall es c, Inv c -> Forall edit_ok es -> Inv (fold_left step_edit es c).
+Proof. exact history_preserves. Qed.
+Print Assumptions C13_history.
+
 (* non-vacuity, and the witness on which the pinned tree (shared, mutated index array) went wrong:
    members with aligned axes (0,1,2) and (0,1,3), aligned indices 0 and 2 dropped -> both (0,) *)
 Example C13_nonvacuous :
   update_aligned_axes [0; 2] [mkM 0 [2;3;4;5] [0;1;2]; mkM 1 [2;3;9;4] [0;1;3]] = Some [[0]; [0]]
   /\ renumber_spec [0;1;3] [0;2] = [0]
-  /\ upd_axes [3;0;2] [1] = [2;1].
+  /\ upd_axes [3;0;2] [1] = [2;1]
+  /\ (let c0 := mkColl [mkM 0 [2;3;4;5] [0;1;2]; mkM 1 [2;3;9;4] [0;1;3]] true in
+      inv c0 && inv (fold_left step_edit [ESlice [IInt 1; ISlice None (Some 2) None]; ERemove 0; ECopy] c0))%bool = true.
 Proof. vm_compute. repeat split. Qed.
